@@ -629,7 +629,9 @@ def check(pid, tier, replay=None):
     ev["violations"] = 1
     rp = os.path.join(wd, "replay.json")
     if violation[0] == "concrete":
-        c = all_cases[violation[1][0]]
+        # report the smallest failing case (by term size) as the replay: closest to a minimal input
+        best = min(violation[1], key=lambda i: len(all_cases[i].get("coq") or json.dumps(all_cases[i].get("desc"))))
+        c = all_cases[best]
         rec = {"property": pid, "kind": "failing-input", "driver": c.get("_driver"), "seed": seed, "case": {k: v for k, v in c.items() if not k.startswith("_")},
                "how": "spec oracle (Coq Run.spec_case) or Go-side oracle rejects the implementation's observed behaviour on this input",
                "other_failing_cases": len(violation[1]) - 1, "broken_obligations": [b[1] for b in broken]}
